@@ -268,6 +268,33 @@ def step (s : St) (j : Json) : R (St × Json) := do
     | some bs => return (s, Json.mkObj [("doc", Json.arr (bs.map (fun b =>
         Json.arr #[Json.str b.1, Json.arr (b.2.map encARec).toArray])).toArray)])
     | none => return (s, Json.mkObj [("doc", Json.null)])
+  | "spec_xml" =>
+    let t ← decXNode (← j.getObjVal? "tree")
+    let hints ← match field? j "hints" with
+      | some a => (← a.getArr?).toList.mapM (fun e => do
+          let lex ← (← e.getObjVal? "lex").getStr?
+          let f ← decFloat (← e.getObjVal? "f")
+          pure (lex, f))
+      | none => pure []
+    match Prov.XmlSpec.readDocument hints t with
+    | some bs => return (s, Json.mkObj [("doc", Json.arr (bs.map (fun b =>
+        Json.arr #[Json.str b.1, Json.arr (b.2.map encARec).toArray])).toArray)])
+    | none => return (s, Json.mkObj [("doc", Json.null)])
+  | "enc_xml" =>
+    let c ← s.cont j "c"
+    let ft ← (← j.getObjVal? "ft").getBool?
+    return (s, Json.mkObj [("tree", encXNode (s.h.encodeXml ft c))])
+  | "dec_xml" =>
+    let t ← decXNode (← j.getObjVal? "tree")
+    let hints ← match field? j "hints" with
+      | some a => (← a.getArr?).toList.mapM (fun e => do
+          let lex ← (← e.getObjVal? "lex").getStr?
+          let f ← decFloat (← e.getObjVal? "f")
+          pure (lex, f))
+      | none => pure []
+    match s.h.decodeXml hints t with
+    | (h, .ok d) => return (← { s with h := h }.bindCont j d, errJson none)
+    | (h, .error e) => return ({ s with h := h }, errJson (some e))
   | "enc_json" =>
     let c ← s.cont j "c"
     match s.h.encodeJson c with
